@@ -4,7 +4,7 @@ use crate::adapter::{configs, Config, STD};
 use crate::engine::{Ctx, Input, Rec, Tier, Verdict};
 use crate::gen::sentence::inorder_group_history;
 use crate::outcome::Outcome;
-use crate::props::hist::{self, judge_history, render_steps, DECODE, FIELDS, SEQ};
+use crate::props::hist::{judge_history, render_steps, DECODE, FIELDS, SEQ};
 use crate::refmodel::seq::Pred;
 
 pub fn check(_sub: &str, cfg: &'static dyn Config, input: &Input, rec: &mut Rec) -> Verdict {
@@ -12,9 +12,6 @@ pub fn check(_sub: &str, cfg: &'static dyn Config, input: &Input, rec: &mut Rec)
         Input::History { lines } => lines,
         _ => crate::engine::infra_error("C05 expects a history"),
     };
-    if cfg.name() == "none" && hist::exceeds_noalloc_capacity(lines) {
-        return Verdict::Excluded("exceeds the no-allocator capacity (C18 decides those)");
-    }
     let (steps, fail) = judge_history(cfg, lines, SEQ | FIELDS | DECODE);
     rec.evals += lines.len() as u64;
     // classification
@@ -77,11 +74,14 @@ pub fn run(ctx: &mut Ctx) {
     ctx.rule = "a payload (reference-encoded message of any type, or random armouring characters, up to 380 characters) is split at arbitrary character boundaries into 2..9 fragments sharing one sequence id (absent, 0..9, multi-digit, with leading zeros) and presented in order after an arbitrary prior history (fresh, abandoned group, just-completed group, noise), with 0..2 unfragmented / bad-checksum / malformed / out-of-sequence lines between fragments; every line is judged against the reassembly model: non-final fragments Incomplete with their own fields, the last Complete with the exact concatenation and, when decoding, the same message as the unfragmented sentence; Option/Result conversions checked on lock-step parsers. Non-trivial = a group is delivered and (n >= 3, or other lines are present in the history, or several groups are delivered); distinct by the whole history.".into();
     ctx.assumptions = vec![
         "fields contain no '*' or ','".into(),
-        "in the no-allocator build histories whose reassembled total exceeds 384 bytes are excluded (C18)".into(),
+        "in the no-allocator build a fragment that would take the reassembled total above 384 bytes must be rejected and leave no trace".into(),
     ];
     ctx.replay_regressions(check);
     let n = ctx.tier.pick(12_000, 400_000);
     ctx.run_proptest("inorder-groups", &STD, n, inorder_group_history(), check);
+    // the no-allocator build around its 384-byte capacity: over-long fragments must be rejected and
+    // leave the group as it was
+    ctx.run_proptest("capacity-groups", &crate::adapter::NONE, n / 4, crate::props::c18::capacity_histories(), check);
     if ctx.tier == Tier::Thorough {
         for cfg in configs().into_iter().skip(1) {
             ctx.run_proptest("inorder-groups", cfg, n / 4, inorder_group_history(), check);
